@@ -18,6 +18,7 @@ import (
 	"verif/ev"
 	"verif/mcx"
 	"verif/vrt"
+	"verif/worlds/track"
 	"verif/worlds/udpw"
 )
 
@@ -74,6 +75,8 @@ func scenario(c cfg) *mcx.Scenario {
 						resp, err := w.CC.Do(req)
 						reqs[i].err = err
 						if err == nil {
+							track.Hold(resp, "response returned from Do")
+							defer func() { track.Unhold(resp); w.CC.ReleaseMessage(resp) }()
 							reqs[i].body = string(udpw.Body(resp))
 							reqs[i].rtoken = fmt.Sprintf("%x", []byte(resp.Token()))
 							if resp.Code() != codes.Content {
